@@ -1,0 +1,29 @@
+//go:build verif
+
+package eval
+
+import (
+	"io"
+
+	"github.com/cedar-policy/cedar-go/internal/parser"
+)
+
+// VerifToken is a token of the internal tokenizer, flattened for the verification harness (build tag verif only).
+type VerifToken struct {
+	Type                 int
+	Offset, Line, Column int
+	Text                 string
+}
+
+// VerifTokenize re-exports the internal streaming tokenizer for the verification harness (build tag verif only).
+func VerifTokenize(r io.Reader) ([]VerifToken, error) {
+	toks, err := parser.TokenizeReader(r)
+	if err != nil {
+		return nil, err
+	}
+	res := make([]VerifToken, len(toks))
+	for i, t := range toks {
+		res[i] = VerifToken{Type: int(t.Type), Offset: t.Pos.Offset, Line: t.Pos.Line, Column: t.Pos.Column, Text: t.Text}
+	}
+	return res, nil
+}
